@@ -458,6 +458,10 @@ def h_convert_generated(eng, ua, ub, form):
         exp = (ub, (sa * x + oa - ob) / sb)
     r = _check_outcome(eng, f"convert-{form}", fn, exp)
     if r is None:
+        if exp[0] == "err" and form == "ito-array":
+            # a refused in-place conversion leaves the quantity exactly as it was
+            eng.prove(And(Eq(a.magnitude[0], x), Eq(a.magnitude[1], x2)), "convert-ito-array:refused-leaves-magnitude")
+            eng.prove(_units_equal(a._units, {ua: 1}), "convert-ito-array:refused-leaves-unit")
         return
     m = r.magnitude[0] if form == "ito-array" else r.magnitude
     eng.prove(Eq(m, exp[1]), "convert-value")
@@ -621,6 +625,15 @@ def h_log(eng, unit, ref, scale, logbase, logfactor, autoconvert):
     except OverflowError:
         return
     eng.prove(close(qb.magnitude[0], expect), "log-to-reference-inplace-array")
+    # a refused in-place conversion (another dimension) leaves the array quantity as it was
+    qc = ureg.Quantity(np.array([x, x], dtype=dt), unit)
+    try:
+        qc.ito("kelvin" if "kelvin" not in ref else "meter")
+    except DimensionalityError:
+        eng.prove(close(qc.magnitude[0], x) and close(qc.magnitude[1], x), "log-refused-inplace-leaves-magnitude")
+        eng.prove(qc.units == ureg.Unit(unit), "log-refused-inplace-leaves-unit")
+    else:
+        eng.fail("log-cross-dimension-ito-accepted")
     # arithmetic that would be ambiguous is refused without autoconvert
     if not autoconvert:
         try:
@@ -653,7 +666,7 @@ def cases(tier, seed):
     for ua, ub in itertools.product(KINDS_REPR, KINDS_REPR):
         if ua == ub:
             continue
-        forms = ["to", "ito-array", "convert"] if big or (ua, ub) in (("degA", "degB"), ("degA", "kel"), ("kel", "degB"), ("delta_degA", "rank"), ("degA", "delta_degB")) else ["to"]
+        forms = ["to", "ito-array", "convert"] if big or (ua, ub) in (("degA", "degB"), ("degA", "kel"), ("kel", "degB"), ("delta_degA", "rank"), ("degA", "delta_degB"), ("degA", "oth"), ("oth", "degB"), ("delta_degA", "oth"), ("delta_degB", "degB")) else ["to"]
         for form in forms:
             out.append(Case("H06.b", f"{ua}->{ub}:{form}", M, "h_convert_generated", {"ua": ua, "ub": ub, "form": form}, opts=opts, validate=1))
     for ac in (False, True):
